@@ -9,6 +9,7 @@
 //! @out format 2 beyond one two-byte range, format 4 with more than 3 segments / 4 glyphIdArray entries, more than 3 groups/entries in formats 6/10/12, Big5 (encoding_rs decoder), Font::lookup_glyph_index encoding dispatch (heavy; see C03 for the Font harness), the 0xFFFF idRangeOffset Fontographer work-around
 
 use crate::util::*;
+use crate::util::provider;
 use allsorts::binary::read::ReadScope;
 use allsorts::error::ParseError;
 use allsorts::font::{find_good_cmap_subtable, Encoding};
@@ -465,4 +466,74 @@ fn c06_macroman_char_roundtrip() {
         assert!(macroman_to_char(b) == Some(c));
         kani::cover!(b >= 128, "upper half");
     }
+}
+
+// ---------------------------------------------------------------------------
+// encoding dispatch in Font::lookup_glyph_index: Windows Symbol
+// ---------------------------------------------------------------------------
+
+/// A font whose only cmap subtable is Windows Symbol (3,0): characters U+F020..=U+F0FF
+/// (the PUA range symbol fonts are encoded in) and their single-byte aliases
+/// U+0020..=U+00FF map to the same glyph, the one the subtable assigns to the low byte
+/// (no OS/2 table, so usFirstCharIndex defaults to 0x20).
+// @bound Font over the 5-table provider with a (3,0) format 4 cmap mapping 0x20..=0xFF to glyph code+3; character any char in U+0020..=U+00FF or U+F000..=U+F0FF
+#[kani::proof]
+#[kani::unwind(8)]
+fn c06_symbol_encoding_dispatch() {
+    use allsorts::font::{Font, MatchingPresentation};
+    let mut p = provider(true, 5);
+    // rewrite the cmap: encoding (3,0), segment [0x20..0xFF] with idDelta 3
+    put16(&mut p.cmap, 6, 0);
+    let s = 12;
+    put16(&mut p.cmap, s + 14, 0x00FF);
+    put16(&mut p.cmap, s + 20, 0x0020);
+    put16(&mut p.cmap, s + 24, 3);
+    let mut font = Font::new(p).unwrap();
+    assert!(font.cmap_subtable_encoding == Encoding::Symbol);
+    let low: u8 = kani::any();
+    let pua: bool = kani::any();
+    let cp = if pua { 0xF000u32 + low as u32 } else { low as u32 };
+    kani::assume(pua || low >= 0x20);
+    let ch = char::from_u32(cp).unwrap();
+    let (gid, _) = font.lookup_glyph_index(ch, MatchingPresentation::NotRequired, None);
+    let expect = if low >= 0x20 { low as u16 + 3 } else { 0 };
+    assert!(gid == expect);
+    kani::cover!(pua && low == 0xFF, "U+F0FF");
+    std::mem::forget(font);
+}
+
+/// Mac Roman (1,0) subtable: a character is looked up by its Mac Roman code; characters
+/// without one fall back to the legacy symbol rule.
+// @tier thorough
+// @bound Font over the 5-table provider with a (1,0) format 4 cmap mapping 0x20..=0xFF to glyph code+3; character any char
+#[kani::proof]
+#[kani::unwind(8)]
+fn c06_macroman_encoding_dispatch() {
+    use allsorts::font::{Font, MatchingPresentation};
+    let mut p = provider(true, 5);
+    put16(&mut p.cmap, 4, 1); // platform Macintosh
+    put16(&mut p.cmap, 6, 0); // encoding Roman
+    let s = 12;
+    put16(&mut p.cmap, s + 14, 0x00FF);
+    put16(&mut p.cmap, s + 20, 0x0020);
+    put16(&mut p.cmap, s + 24, 3);
+    let mut font = Font::new(p).unwrap();
+    assert!(font.cmap_subtable_encoding == Encoding::AppleRoman);
+    let ch: char = kani::any();
+    let (gid, _) = font.lookup_glyph_index(ch, MatchingPresentation::NotRequired, None);
+    let code: u32 = match char_to_macroman(ch) {
+        Some(b) => b as u32,
+        None => {
+            let c = ch as u32;
+            if c >= 0xF000 && c <= 0xF0FF {
+                c - 0xF000
+            } else {
+                c
+            }
+        }
+    };
+    let expect = if code >= 0x20 && code <= 0xFF { code as u16 + 3 } else { 0 };
+    assert!(gid == expect);
+    kani::cover!(ch == '\u{2020}', "dagger maps through Mac Roman 0xA0");
+    std::mem::forget(font);
 }
